@@ -500,6 +500,21 @@ def make_model(names, bounds):
 
 
 def proposal_case(ctx, case, rng, tmp):
+    """every third case runs with EXTRA non-sampling fields registered (as the importance sampler or a user does) holding
+    non-default values: they must come through rescale / inverse_rescale like logP, logL, it (seeded change C07-d)"""
+    import zlib
+    from nessai.livepoint import add_extra_parameters_to_live_points, reset_extra_live_points_parameters
+    extra = zlib.crc32(repr(sorted(case.items(), key=lambda kv: kv[0])).encode()) % 3 == 0
+    if not extra:
+        return _proposal_case(ctx, case, rng, tmp, None)
+    add_extra_parameters_to_live_points(["logW", "aux_flag"], [0.0, -1.0])
+    try:
+        return _proposal_case(ctx, dict(case, extra_fields=["logW", "aux_flag"]), rng, tmp, {"logW": 2.5, "aux_flag": 7.0})
+    finally:
+        reset_extra_live_points_parameters()
+
+
+def _proposal_case(ctx, case, rng, tmp, extra_values):
     from nessai.proposal.flowproposal import FlowProposal
     names, bounds = case["names"], case["bounds"]
     key = "FlowProposal.rescale"
@@ -529,6 +544,8 @@ def proposal_case(ctx, case, rng, tmp):
         return
     X = np.array(case["points"], dtype=float)
     x = H.live_points(names, X)
+    for k, v in (extra_values or {}).items():
+        x[k] = v + 0.25 * np.arange(x.size)
     x0 = x.copy()
     if case.get("update") is not None:
         prop.check_state(H.live_points(names, case["update"]))
@@ -540,7 +557,8 @@ def proposal_case(ctx, case, rng, tmp):
     nrep = xp.size // x0.size
     rows = np.tile(np.arange(x0.size), nrep)
     if H.ns_bytes(xp0) != H.ns_bytes(x0[rows]) or H.ns_bytes(xb) != H.ns_bytes(x0[rows]):
-        ctx.oracle_fail(key + ":non-sampling", "logP/logL/it are not carried unchanged through rescale / inverse_rescale", case)
+        ctx.oracle_fail(key + ":non-sampling", "non-sampling fields (logP, logL, it" + (", " + ", ".join(extra_values) if extra_values else "")
+                        + ") are not carried unchanged through rescale / inverse_rescale", case)
     bad = []
     for p in names:
         tol = 1e-9 * max(1.0, abs(bounds[p][0]), abs(bounds[p][1]))
